@@ -265,6 +265,13 @@ Proof.
   induction l as [|x l IH]; intros [|j]; cbn; auto.
 Qed.
 
+Lemma concat_concat : forall {A} (l : list (list (list A))),
+  concat (concat l) = concat (map (@concat A) l).
+Proof.
+  intros A l; induction l as [|x l IH]; [reflexivity|].
+  cbn [concat map]. rewrite concat_app, IH. reflexivity.
+Qed.
+
 Lemma skipn_length_app : forall {A} (a b : list A), skipn (length a) (a ++ b) = b.
 Proof. intros A a b; induction a; [reflexivity|assumption]. Qed.
 
@@ -312,7 +319,7 @@ Proof.
       concat_repeat_nil. rewrite !app_nil_l in *. rewrite app_assoc, <- concat_app, <- rev_app_distr,
       firstn_skipn. exact GS.
   - unfold read_order. fold k. rewrite !map_app. cbn [map]. f_equal; [|rewrite Hact; reflexivity].
-    rewrite map_rev, map_rev, !map_map. f_equal.
+    rewrite !map_map, !map_rev, !map_map. f_equal.
     rewrite seq_from, map_map. apply map_ext_in. intros j Hj. apply in_seq in Hj.
     unfold content. rewrite Harch. unfold in_window. fold k.
     destruct (Nat.leb_spec (base r) (base r + j)); [|lia].
@@ -338,7 +345,7 @@ Proof.
   destruct (stream_suffix_invariant c pre ops Happ) as (lost & kept & H1 & H2 & _ & _ & H5).
   fold s evs stream in H1, H2, H5.
   exists (length (concat lost)). split.
-  - unfold read. rewrite H2, <- H1, skipn_length_app. reflexivity.
+  - unfold read. rewrite H2, <- H1, skipn_length_app. symmetry. apply concat_concat.
   - intros Hle. rewrite (H5 Hle). reflexivity.
 Qed.
 
